@@ -24,7 +24,8 @@ func verifFragmentPaths(manifest Manifest) []string {
 // VerifC20Tamper: a valid dump directory is changed in one place and loaded into an
 // empty database. Whatever the change - a flipped bit, a truncation or an extension of a
 // fragment (kind 0-2), a fragment replaced by another one or by a re-written one of the
-// same shape (3,4), a manifest entry that no longer matches its fragment (5) - Load fails,
+// same shape (3,4), a manifest entry that no longer matches its fragment (5), a manifest
+// with bytes after its closing brace (6) - Load fails,
 // and it fails before any node or relationship has been written.
 // verifRewriteFragments re-writes node and edge fragments of a dump record by record and
 // brings the manifest's sizes and digests in line with the new contents.
@@ -201,6 +202,15 @@ func VerifC20Tamper(n, e, kind int) {
 				changed = append(append(changed, payload...), '\n')
 			}
 		}
+	case 6:
+		// the manifest itself is extended: bytes after its closing brace
+		manifestPath := filepath.Join(out, manifestFileName)
+		original, _ := verifReadFile(manifestPath)
+		suffix := []string{"x", "{}", "}", " null", "\x00", "{\"format\":"}[verifrt.NondetChoice("manifest suffix", 6)]
+		if verifOsWriteFile(manifestPath, append(append([]byte{}, original...), suffix...), 0o600) != nil {
+			return
+		}
+		changed = data
 	default:
 		// the manifest entry of the victim no longer matches the fragment
 		for gi := range manifest.Graphs {
@@ -231,7 +241,7 @@ func VerifC20Tamper(n, e, kind int) {
 		}
 		changed = data
 	}
-	if kind != 5 {
+	if kind != 5 && kind != 6 {
 		if string(changed) == string(data) {
 			return
 		}
